@@ -50,7 +50,11 @@ def observe(test):
     r0, s0 = rows(net), value_snapshot(net)
     _verif.reset()
     if crash["when"] == "after":
-        _verif.armed[crash["stage"]] = crash["hit"]
+        if crash.get("exc", "injected") == "lfnc":
+            from pandapower.powerflow import LoadflowNotConverged
+            _verif.armed[crash["stage"]] = (crash["hit"], LoadflowNotConverged("injected at %s" % crash["stage"]))
+        else:
+            _verif.armed[crash["stage"]] = crash["hit"]
     out = {"test": test, "err": ""}
     try:
         _call(test["kind"], net)
@@ -104,7 +108,8 @@ def tlc_traces(cfg, cases):
 def key_of(c, name):
     t = c["test"]
     cr = t["crash"]
-    where = "ok" if cr["when"] == "never" else "%s:%s%s" % (cr["when"], cr["stage"], "#%d" % cr["hit"] if cr["hit"] > 1 else "")
+    where = "ok" if cr["when"] == "never" else "%s:%s%s%s" % (cr["when"], cr["stage"], "#%d" % cr["hit"] if cr["hit"] > 1 else "",
+                                                              "!lfnc" if cr.get("exc") == "lfnc" else "")
     what = ",".join(c["row_delta"]) if name == "C08_NoRowsAddedOrRemoved" else "values:" + ",".join(c["changed"])
     return "C08|%s|%s|%s|%s" % (t["kind"], "+".join(sorted(t["feats"])) or "plain", where, what)
 
@@ -134,11 +139,12 @@ def run(tier, seed, replay=None):
         c = cases[i]
         v.divergence("%s: %s recorded events %s outcome %s %s" % (name, c["test"], c["events"], c["outcome"], c["err"]))
     nontriv = sum(1 for c in cases if c["test"]["crash"]["when"] != "never"
-                  and ("dcline" in c["test"]["feats"] or "taptable" in c["test"]["feats"]))
+                  and ("dcline" in c["test"]["feats"] or "taptable" in c["test"]["feats"] or "ideal" in c["test"]["feats"]))
     v.coverage = {
         "evaluations": len(cases), "distinct_nontrivial": nontriv, "exhaustive": True,
-        "rule": "one implementation test per (calculation kind x feature subset {dcline, taptable, usergens} x crash point) "
-                "triple enumerated by TLC from CalcPipeline.tla: injected raise after every hook stage (and at the 1st/2nd/3rd "
+        "rule": "one implementation test per (calculation kind x feature subset {dcline, taptable, usergens, ideal} x crash point) "
+                "triple enumerated by TLC from CalcPipeline.tla: injected raise (a foreign exception or LoadflowNotConverged) after every hook "
+                "stage (and at the 1st/2nd/3rd "
                 "inner power flow of a contingency analysis), natural failures (no slack, non-convergence), and the normal "
                 "path; non-trivial = a crash point on a net with auxiliary/temporary state (dcline or tap table)",
         "states": states + r1.distinct, "transitions": trans + r1.transitions,
